@@ -3,6 +3,9 @@ import RV.C03.NumLemmas
 import RV.C03.ListLemmas
 import RV.C03.LayoutLemmas
 import RV.C03.PreLemmas
+import RV.C03.ChoiceLemmas
+import RV.C03.ChoiceTops
+import RV.C03.NTDocLemmas
 import RV.C03.NTLineLemmas
 import RV.C03.BaseRelLemmas
 import RV.C03.RefSplitLemmas
@@ -50,6 +53,18 @@ def Statement_map_writer_roundtrip : Prop :=
 def Statement_long_writer_roundtrip : Prop :=
   ∀ (m : List (Char × Str)), mapOK [bs] m = true →
     ∀ s : Str, decLongBody dq (encLong m s ++ [dq, dq, dq]) = some s
+
+/-- `nt_doc_roundtrip`: a whole N-Triples document.  For every list of triples (subjects: IRIs / plain blank-node
+    labels, IRI predicates, any object incl. literals with ANY lexical form) the reader — every line through the W3C
+    line grammar, blank-node labels through the per-document table that gives a label met for the first time a FRESH
+    node and later occurrences the same node — returns exactly the triples written with every label `l` replaced by
+    the reader's node `posOf fin l`; all labels of the document are in the final table `fin`, and the replacement is
+    injective on it: the parsed graph equals the written one up to a renaming of blank nodes. -/
+def Statement_nt_doc_roundtrip : Prop :=
+  ∀ ts : List (NTerm × NTerm × NTerm), (∀ t ∈ ts, TripleWf t) →
+    ∃ fin, readDoc [] (ntDoc ts) = some (fin, ts.map (relabelTr (posOf fin))) ∧
+      (∀ l ∈ docLabels ts, l ∈ fin) ∧
+      (∀ a ∈ fin, ∀ b ∈ fin, posOf fin a = posOf fin b → a = b)
 
 /-! ### Statements — numeric / boolean shorthand -/
 
@@ -120,6 +135,17 @@ example : mapOK [dq, bs, lf, cr] [('\\', ['\\', '\\']), ('\n', ['\\', '\\', 'n']
 example : mapOK [dq, bs, lf, cr] [('\\', ['\\', '\\']), ('\n', ['\\', 'n']), ('\r', ['\\', 'r'])] = false := by decide
 
 theorem nt_line_roundtrip : Statement_nt_line_roundtrip := fun s p o hs hp ho => nt_line_roundtrip' s p o hs hp ho
+
+theorem nt_doc_roundtrip : Statement_nt_doc_roundtrip := by
+  intro ts hwf
+  obtain ⟨fin, _, hdoc, hlab⟩ := readDoc_ntDoc ts hwf []
+  exact ⟨fin, hdoc, hlab, fun a ha b hb h => posOf_inj fin a b ha hb h⟩
+
+/-- non-vacuity: `_:b <p> _:a . _:a <p> _:b . _:c <p> "x" .` — labels get nodes 0, 1, 2 in order of first occurrence -/
+example : readDoc [] (ntDoc [(.bnode ['b'], .iri ['p'], .bnode ['a']), (.bnode ['a'], .iri ['p'], .bnode ['b']),
+      (.bnode ['c'], .iri ['p'], .lit ['x'] none none)]) =
+    some ([['b'], ['a'], ['c']], [(.bnode 0, .iri ['p'], .bnode 1), (.bnode 1, .iri ['p'], .bnode 0),
+      (.bnode 2, .iri ['p'], .lit ['x'] none none)]) := by decide +kernel
 
 theorem shorthand_relex : Statement_shorthand_relex := fun _ _ h => tokenOk_relex h
 
@@ -404,6 +430,91 @@ example : denote (layout nested [1, 2] 3) =
     [(.iri 10, .iri 11, .bn (.fresh [0, 0])), (.bn (.fresh [0, 0]), .iri 12, .lit 5),
      (.bn (.fresh [0, 0]), .iri 13, .bn (.fresh [1, 0, 0])), (.bn (.fresh [1, 0, 0]), .iri 12, .lit 6)] := by
   decide
+
+/-! ## Layer 2 — structure: what rdflib's recursive writer really chooses -/
+
+/-- `rdflib_choice_pre`: for EVERY graph (a duplicate-free list of triples over IRIs, literals and its own blank
+    nodes, IRI predicates) and EVERY order in which the loop of `serialize` visits subjects, the blank nodes that the
+    model of rdflib's recursive Turtle / longturtle / N3 writer (`choiceOn`: `statement`, `s_squared`, `path`,
+    `p_squared` with its `_serialized` / `_references` tests, `isValidList` + `doList`, the `_serialized` state
+    threaded through the recursion) leaves unlabelled in object position satisfy `Pre`: each is referenced exactly
+    once and no cycle consists of such nodes only.  Holds for every order of predicates and objects inside a
+    statement (the order of the list `g`) and for any nesting fuel. -/
+def Statement_rdflib_choice_pre : Prop :=
+  ∀ (g : Graph) (order : List Term), g.Nodup → (∀ t ∈ g, origOnly t.1 ∧ origOnly t.2.2) →
+    (∀ t ∈ g, ∃ k, t.2.1 = .iri k) →
+    ∃ rank, Pre g (hiddenIds (choiceOn g order)) ((choiceOn g order).1.2.length + 1) rank
+
+/-- … hence `layout_roundtrip` applies to what rdflib chooses: the document with exactly those nodes inlined
+    (`rdflibLayout`, subjects visited in `orderSubjects` order) denotes a graph isomorphic to the one written. -/
+def Statement_rdflib_layout_roundtrip : Prop :=
+  ∀ (g : Graph) (ord : List Nat), g.Nodup → (∀ t ∈ g, origOnly t.1 ∧ origOnly t.2.2) →
+    (∀ t ∈ g, ∃ k, t.2.1 = .iri k) → Iso g (denote (rdflibLayout g ord))
+
+/-- `orderSubjects` lists every subject of the graph exactly once (whatever the term order `ord`): the loop of
+    `serialize` visits each subject, none twice. -/
+def Statement_orderSubjects_complete : Prop :=
+  ∀ (g : Graph) (ord : List Nat), (orderSubjects g ord).Nodup ∧
+    ∀ s, s ∈ orderSubjects g ord ↔ ∃ p o, (s, p, o) ∈ g
+
+theorem rdflib_choice_pre : Statement_rdflib_choice_pre := by
+  intro g order hnd ho hpi
+  exact ⟨_, pre_of_CInv hnd ho hpi (choiceOn_inv hnd order)⟩
+
+theorem rdflib_layout_roundtrip : Statement_rdflib_layout_roundtrip := by
+  intro g ord hnd ho hpi
+  exact layout_roundtrip' (pre_of_CInv hnd ho hpi (choiceOn_inv hnd (orderSubjects g ord)))
+
+theorem orderSubjects_complete : Statement_orderSubjects_complete :=
+  fun g ord => ⟨nodup_orderSubjects g ord, mem_orderSubjects g ord⟩
+
+/-- `choice_tops`: the top-level statements the writer model writes (`statement` calls that were not skipped by
+    `isDone`) have pairwise distinct subjects, and these are exactly the subjects of the graph that were not hidden —
+    the very statement subjects of `layout g (hiddenIds …)`; a statement starts with `[]` (`s_squared`) exactly when its
+    subject is an unreferenced blank node.  So nothing is written twice and no subject is left out. -/
+def Statement_choice_tops : Prop :=
+  ∀ (g : Graph) (ord : List Nat), g.Nodup → (∀ t ∈ g, origOnly t.1 ∧ origOnly t.2.2) →
+    (topsOf (choice g ord)).Nodup ∧
+    (∀ s, s ∈ topsOf (choice g ord) ↔ s ∈ topSubjects g (hiddenIds (choice g ord))) ∧
+    (∀ e ∈ (choice g ord).2, e.2 = topAnon g e.1)
+
+theorem choice_tops : Statement_choice_tops := by
+  intro g ord hnd ho
+  have hO := choiceOn_oinv g (orderSubjects g ord)
+  have hC := choiceOn_inv hnd (orderSubjects g ord)
+  refine ⟨hO.nodup, ?_, hO.flags⟩
+  intro s
+  show s ∈ topsOf (choiceOn g (orderSubjects g ord)) ↔ _
+  rw [mem_tops_choiceOn, mem_orderSubjects, mem_top]
+  constructor
+  · rintro ⟨⟨p, o, hm⟩, hn⟩
+    refine ⟨⟨p, o, hm⟩, ?_⟩
+    cases hi : inl (hiddenIds (choice g ord)) s with
+    | false => rfl
+    | true => exact absurd ((inl_hidden ho hC (ho _ hm).1).mp hi) hn
+  · rintro ⟨⟨p, o, hm⟩, hi⟩
+    refine ⟨⟨p, o, hm⟩, ?_⟩
+    intro hh
+    have := (inl_hidden ho hC (ho _ hm).1).mpr hh
+    have hi' : inl (hiddenIds (choice g ord)) s = false := hi
+    rw [show hiddenIds (choice g ord) = (choiceOn g (orderSubjects g ord)).1.2.map origId from rfl] at hi'
+    rw [this] at hi'
+    exact absurd hi' (by simp)
+
+/-- non-vacuity.  `nested` (above): both nested nodes are hidden.  `twoCycle`: `_:1 p _:2 . _:2 p _:1` with no
+    other entry point — the writer labels the one it starts with and hides the other (no cycle of hidden nodes).
+    `sharedTail`: the chain is malformed for `( … )` (second cell referenced twice): cell 1 is hidden as a bracket,
+    the shared cell 2 keeps its label — and so does cell 3, although referenced once: its referrer `_:2` is visited
+    after it (subjects with fewer references come first), so it was written at top level already.  The proper list
+    `( 1 2 3 )`: all three cells hidden.  An unreferenced blank node is written `[] …`. -/
+def twoCycle : Graph := [(bnO 1, .iri 11, bnO 2), (bnO 2, .iri 11, bnO 1)]
+
+example : hiddenIds (choice nested []) = [1, 2] := by decide
+example : hiddenIds (choice twoCycle []) = [2] ∧ (choice twoCycle []).2 = [(bnO 1, false)] := by decide
+example : hiddenIds (choice sharedTail []) = [1] := by decide
+example : hiddenIds (choice (sharedTail.take 7) []) = [1, 2, 3] := by decide
+example : (choice [(bnO 1, .iri 11, .lit 1), (bnO 2, .iri 11, bnO 2)] []).2 = [(bnO 1, true), (bnO 2, false)] := by decide
+example : wDeep nested [] = false ∧ wDeep sharedTail [] = false := by decide
 
 /-! ## Layer 3 — HexTuples rows -/
 
